@@ -16,12 +16,12 @@ var vOps1 = []string{
 	"xdx", "(x)d6", "d(x)", "2d(x)", "b(x)", "p(x)", "(x)a10", "2a(x)", "(x)c10", "2c(x)", "f", "x ?? 1",
 	"2d6k(x)", "2d6q(x)", "2d6kh(x)", "2d6kl(x)", "2d6dh(x)", "2d6dl(x)", "2d6min(x)", "2d6max(x)",
 	"4a10m(x)", "4a10k(x)", "4a10q(x)", "4c8m(x)",
-	"`a{x}b`", "`{% x %}`", "[x, 2]kh", "[x, 1, 3]kl", "[x,2].kh(1)",
+	"`a{x}b`", "`{% x %}`", "[x, 2]kh", "[x, 1, 3]kl", "[x,2].kh(1)", "[x, 'w', 2]kh3", "[x, null].kl(2)", "['w', x].kh(x)",
 	"ceil(x)", "floor(x)", "round(x)", "toInt(x)", "toFloat(x)", "toStr(x)", "toBool(x)", "repr(x)", "abs(x)", "typeId(x)", "dir(x)",
 	"load(x)", "loadRaw(x)", "x.sum()", "x.len()", "x.shuffle()", "x.rand()", "x.randSize(2)", "x.pop()", "x.shift()",
 	"x.push(1)", "x.keys()", "x.values()", "x.items()", "x.compute()", "x.kh()", "x.kl()", "x.kh(2)",
 	"x ? 1 : 2", "x ? 1, 0 ? 2, 3", "if x { 1 } else { 2 }", "i = 0; while x { i = i + 1; if i > 2 { break } }; i",
-	"&v1 = x + 1; v1", "func fn1(n) { return n + x }; fn1(1)", "x.a = 1; x", "x[0] = 1; x", "x[0:1] = [5]; x",
+	"&v1 = x + 1; v1", "func fn1(n) { return n + x }; fn1(1)", "func fn1() { d + x }; fn1()", "&v1 = 2d + x; v1", "func fn1() { (x)d }; fn1() + fn1()", "x.a = 1; x", "x[0] = 1; x", "x[0:1] = [5]; x",
 	"[x..3]", "[3..x]", "[x]*2", "[1,2]*x", "x * [1]", "{x: 1}", "{'k': x}.k", "!x",
 }
 
